@@ -12,5 +12,5 @@ SplitCases == SetToSeq({[k |-> "split", fields |-> fs, lines |-> SetToSeq(Lines(
 DefCases == SetToSeq({[k |-> "defs", D |-> D, canon |-> DumpText(D), alt |-> AltText(D)] : D \in DefSets(Thorough)})
 ASSUME ndJsonSerialize(IOEnv.VF_OUT, SplitCases \o DefCases)
 ASSUME PrintT(<<"VF", "GEN", Len(SplitCases), Len(DefCases), Cardinality(SetsA), Cardinality(SetsB),
-                Cardinality(SetsC(IF Thorough THEN 4 ELSE 3)), Cardinality(SetsD)>>)
+                Cardinality(SetsC(IF Thorough THEN 4 ELSE 3)), Cardinality(SetsD), Cardinality(SetsE)>>)
 =============================================================================
